@@ -541,7 +541,7 @@ class ListMatcher(Matcher):
         self._i += 1
 
     def weight(self):
-        if self._all_weights:
+        if self._all_weights is not None:
             return self._all_weights
         elif self._weights:
             return self._weights[self._i]
@@ -555,7 +555,7 @@ class ListMatcher(Matcher):
         return self._terminfo.max_length()
 
     def block_max_weight(self):
-        if self._all_weights:
+        if self._all_weights is not None:
             return self._all_weights
         elif self._weights:
             return max(self._weights)
